@@ -273,8 +273,15 @@ __CPROVER_requires(__CPROVER_is_fresh(v, sizeof(*v)))
 __CPROVER_assigns(g_lb_pos, g_lb_target, g_lb_valid)
 __CPROVER_ensures(RET <= v->n && g_lb_pos == RET && g_lb_target == target && g_lb_valid)
 __CPROVER_ensures(v->g_p < v->n ==> ((v->g_p < RET) == (v->tracked->g_key < target)));
+/* std::upper_bound(begin, end, target, ...): the first position whose name is GREATER than target (not used by the pinned source: present so that a
+   change from lower_bound to upper_bound is decided by the contracts instead of ending in 'extraction' - seed C17-B4) */
+size_t UPPER_BOUND(KVec* v, Key target)
+__CPROVER_requires(__CPROVER_is_fresh(v, sizeof(*v)))
+__CPROVER_assigns(g_lb_pos, g_lb_target, g_lb_valid)
+__CPROVER_ensures(RET <= v->n && g_lb_pos == RET && g_lb_target == target && g_lb_valid)
+__CPROVER_ensures(v->g_p < v->n ==> ((v->g_p < RET) == (v->tracked->g_key <= target)));
 /* vector::insert(position, element): the tracked index shifts when the new element goes in front of it */
-static inline void KVec_insert(KVec* v, size_t pos, LGk* e) { __CPROVER_assert(pos <= v->n, "insert position within [0, size]"); __CPROVER_assert(pos == g_lb_pos && g_lb_valid && e->g_key == g_lb_target, "C17: a new entry is inserted exactly where lower_bound of its own name points (the registry stays sorted)"); if (v->g_p < v->n && pos <= v->g_p) v->g_p++; v->n++; v->g_inserts++; g_lb_valid = false; g_rep_valid = false; }
+static inline void KVec_insert(KVec* v, size_t pos, LGk* e) { __CPROVER_assert(pos <= v->n, "insert position within [0, size]"); __CPROVER_assert(pos == g_lb_pos && g_lb_valid && e->g_key == g_lb_target, "C17: a new entry is inserted where a bound search for its own name points (the registry stays sorted)"); if (v->g_p < v->n && pos <= v->g_p) v->g_p++; v->n++; v->g_inserts++; g_lb_valid = false; g_rep_valid = false; }
 '''
 LMK_PRELUDE = SORTED + r'''
 typedef struct Spinlock { int d; } Spinlock;
@@ -371,7 +378,8 @@ typedef struct SMk { KVec _sinks; } SMk;
 #define T_(s) ((s)->_sinks.tracked)
 static inline Sink* WEAK_lock(LGk* e) { return e->expired ? (Sink*)NULL : e->sink; }      /* weak_ptr::lock(): null when the sink is gone */
 '''
-SLB_RULES = [(r'std::lower_bound\(_sinks\.begin\(\),\s*_sinks\.end\(\),\s*(target|sink_name),\s*\[\]\(SinkInfo const& elem, std::string const& b\)\s*\{\s*return elem\.sink_id < b;\s*\}\s*\)', r'LOWER_BOUND(&_sinks, \1)', '!'),
+SLB_RULES = [(r'std::lower_bound\(_sinks\.begin\(\),\s*_sinks\.end\(\),\s*(target|sink_name),\s*\[\]\(SinkInfo const& elem, std::string const& b\)\s*\{\s*return elem\.sink_id < b;\s*\}\s*\)', r'LOWER_BOUND(&_sinks, \1)', '?'),
+             (r'std::upper_bound\(_sinks\.begin\(\),\s*_sinks\.end\(\),\s*(target|sink_name),\s*\[\]\([^()]*\)\s*\{[^{}]*\}\s*\)', r'UPPER_BOUND(&_sinks, \1)', '?'),
              (r'auto\s+search_it\s*=', 'size_t const search_it =')]
 sm_find = dict(
     name='SM.find', primary='C17', props={'C17'}, kind='L',
@@ -397,7 +405,7 @@ sm_insert = dict(
     desc='SinkManager::_insert_sink: a new entry goes exactly where lower_bound of its name points, so the registry stays sorted',
     structs=[], prelude=SMK_PRELUDE + r'''
 LGk* SINKINFO_new(Key name, Sink* s) __CPROVER_assigns() __CPROVER_ensures(__CPROVER_is_fresh(RET, sizeof(LGk)) && RET->g_key == name && !RET->expired && RET->sink == s);
-''', enforce='SM__insert_sink', replace=['LOWER_BOUND', 'SINKINFO_new'],
+''', enforce='SM__insert_sink', replace=['LOWER_BOUND', 'UPPER_BOUND', 'SINKINFO_new'],
     funcs=[dict(src=dict(header=SMH, cls='SinkManager', name='_insert_sink'), src_params=['sink_name', 'sink'], cfun='SM__insert_sink', sig='void SM__insert_sink(SMk* self, Key sink_name, Sink* sink)',
                 cls_c='SM', member_fields=['_sinks'],
                 pre_rules=SLB_RULES + [(r'_sinks\.insert\(search_it,\s*SinkInfo\{sink_name,\s*sink\}\)\s*;', 'KVec_insert(&_sinks, search_it, SINKINFO_new(sink_name, sink));')],
